@@ -63,9 +63,11 @@ enum Ev {
     /// the pending timer fires on time and the transport then stalls the next write (typically the
     /// PINGREQ) for three seconds before accepting it
     TimerExactThenWriteStalls,
+    /// the application drops poll(), makes a publish that is refused locally (illegal property) and polls again
+    CancelAndRefusedPublish,
 }
 
-const EVENTS: [Ev; 19] = [
+const EVENTS: [Ev; 20] = [
     Ev::TimerExact,
     Ev::TimerLate,
     Ev::Inbound,
@@ -85,6 +87,7 @@ const EVENTS: [Ev; 19] = [
     Ev::PingRespJustBeforeDeadline,
     Ev::PingRespAtDeadline,
     Ev::TimerExactThenWriteStalls,
+    Ev::CancelAndRefusedPublish,
 ];
 
 pub struct C10 {
@@ -184,6 +187,7 @@ impl C10 {
 }
 
 enum After {
+    RefusedPub,
     Pub(u8),
     Repoll,
     End,
@@ -370,6 +374,10 @@ impl Model for C10 {
                                                 break;
                                             }
                                         }
+                                        Ev::CancelAndRefusedPublish => {
+                                            res = After::RefusedPub;
+                                            break;
+                                        }
                                         Ev::CancelAndRepoll => {
                                             res = After::Repoll;
                                             break;
@@ -474,6 +482,34 @@ impl Model for C10 {
                                 if e.fatal() {
                                     mon.dead = true;
                                     break 'outer;
+                                }
+                            }
+                            self.account_writes(bench, id, &mut seen, &mut mon, &mut viol, false);
+                            continue 'outer;
+                        }
+                        After::RefusedPub => {
+                            log!("application drops poll() and makes a publish that is refused locally at {} ms", now_ms());
+                            let before = bench.written(id).len();
+                            let bad = [minimq::Property::ServerReference("x")];
+                            let r = {
+                                let fut = conn.publish(Publication::bytes("t", b"x").properties(&bad));
+                                let mut fut = Box::pin(fut);
+                                let mut cx = Context::from_waker(&waker);
+                                bench.sh.borrow_mut().op_calls = 0;
+                                match fut.as_mut().poll(&mut cx) {
+                                    Poll::Ready(Ok(_)) => Ok(()),
+                                    Poll::Ready(Err(e)) => Err(Res::from_pub(&e)),
+                                    Poll::Pending => panic!("machinery: publish blocked on a writable transport"),
+                                }
+                            };
+                            // (an earlier half-finished packet may be completed by the call; the refused request itself writes nothing)
+                            let _ = before;
+                            if r != Err(Res::InvalidRequest) {
+                                if let Err(e) = r {
+                                    if e.fatal() {
+                                        mon.dead = true;
+                                        break 'outer;
+                                    }
                                 }
                             }
                             self.account_writes(bench, id, &mut seen, &mut mon, &mut viol, false);
